@@ -27,6 +27,7 @@ META = {
     "assumptions": ["model file system for the GFA / path file / output", "selectors range over the stated finite menus"],
 }
 META["explanation"] += '  Segment names come from four sets (plain letters; s1 / s1.2 / s12; HG002#1#ctg7 / chr1:5-9 / chr1; 1 / x_y|z=; / 1-alt) spread over the harnesses.  tokens/gfa.py: the tokenizer of extract_path decided as a language by z3.'
+META["explanation"] += '  step3/*: two fixed link lines between the two nodes (two-node cycles, parallel links, self-loops) plus a solver-chosen third.'
 
 SEQ = {"a": "AAC", "b": "GT", "c": "CCGA"}
 COMP = {"A": "T", "C": "G", "G": "C", "T": "A", "N": "N"}
@@ -116,12 +117,17 @@ def gfa_lines(nodes, links, extra=()):
 
 
 ALL_LINKS2 = [(u, du, v, dv) for u in "ab" for du in "+-" for v in "ab" for dv in "+-"]
+STEP3_PAIRS = [(("a", "+", "b", "+"), ("b", "+", "a", "+")), (("a", "+", "b", "-"), ("a", "-", "b", "+")), (("a", "+", "a", "+"), ("a", "-", "a", "-")),
+               (("a", "+", "a", "+"), ("a", "+", "b", "+")), (("b", "-", "a", "+"), ("a", "+", "b", "+")), (("a", "+", "a", "-"), ("b", "+", "b", "-"))]
 
 
 def harnesses(tier):
     hs = []
     for i, l in enumerate(ALL_LINKS2):
         hs.append({"id": "step/%s%s%s%s" % l, "params": {"kind": "step", "link": i}, "timeout": 600, "twin": i == 0})
+    # three link lines over two nodes: the first two fixed (two-node cycles, parallel links, self-loops), the third and the step symbolic
+    for i, (l1, l2) in enumerate(STEP3_PAIRS):
+        hs.append({"id": "step3/%s%s%s%s,%s%s%s%s" % (l1 + l2), "params": {"kind": "step", "link": ALL_LINKS2.index(l1), "link2": ALL_LINKS2.index(l2)}, "timeout": 600})
     for o in "><":
         for n in "abc":
             hs.append({"id": "walk/%s%s" % (o, n), "params": {"kind": "walk", "first": [o, n]}, "timeout": 900, "twin": (o, n) == (">", "a")})
@@ -164,6 +170,8 @@ def build(params):
             LINE_ORDER[0] = params["link"] % 3
             NAMESET[0] = params["link"] % 4
             links = [link1]
+            if "link2" in params:
+                links.append(ALL_LINKS2[params["link2"]])
             second = pick(l2, ALL_LINKS2 + [None])
             if second is not None:
                 links.append(second)
@@ -297,6 +305,8 @@ def replay(params, model, wd):
     reqs = []
     if kind == "step":
         links = [ALL_LINKS2[params["link"]]]
+        if "link2" in params:
+            links.append(ALL_LINKS2[params["link2"]])
         second = (ALL_LINKS2 + [None])[a[0]]
         if second:
             links.append(second)
